@@ -178,9 +178,8 @@ class Dispatcher:
         if pobj is None:
             raise NoSuchParameterError(f'Module {modulename!r} has no parameter {pname or exportedname!r}')
         if pobj.constant is not None:
-            # really needed? we could just construct a readreply instead....
-            # raise ReadOnlyError('This parameter is constant and can not be accessed remotely.')
-            return pobj.datatype.export_value(pobj.constant)
+            # pobj.constant is already the serialised version of the constant
+            return pobj.constant, {'t': pobj.timestamp} if pobj.timestamp else {}
 
         # note: exceptions are handled in handle_request, not here!
         getattr(moduleobj, 'read_' + pname)()
